@@ -901,3 +901,65 @@ Proof.
   destruct (cover_raises eqb ltb dflt i size (rows_of fr)) eqn:E; [discriminate|].
   intro H. injection H as <-. exists i. destruct fr; simpl; auto.
 Qed.
+
+(** * statements in the form used by Prop_C20 *)
+Lemma col_update_effect {A : Type} from to col (f : Z -> A -> A) d i j x :
+  cell d i j = Some x -> inw from to i = true -> Z.of_nat j = col ->
+  cell (col_update from to col f d) i j = Some (f (Z.of_nat i) x).
+Proof.
+  intros Hc Hw Hj. rewrite cell_col_update, Hc, Hw. simpl.
+  destruct (Z.of_nat j =? col) eqn:E; [reflexivity|lia].
+Qed.
+
+Lemma brownian_effect (N : Num) from to col x0 signs (d : list (list (F N))) (k j : nat) x :
+  0 <= from -> to - from - 1 <= len signs -> Z.of_nat k < to - from ->
+  cell d (Z.to_nat from + k) j = Some x -> Z.of_nat j = col ->
+  cell (brownian N from to col x0 signs d) (Z.to_nat from + k) j =
+  Some (fadd x (walk_at N (fsqrt (fofZ (to - from))) x0 signs k)).
+Proof.
+  intros H0 Hl Hk Hc Hj. rewrite brownian_is_col_update.
+  rewrite (col_update_effect _ _ _ _ _ _ _ x) by (auto; unfold inw, in_win; lia).
+  do 2 f_equal. replace (Z.of_nat (Z.to_nat from + k) - from) with (Z.of_nat k) by lia.
+  apply random_walk_nth; lia.
+Qed.
+
+Lemma walk_at_0 (N : Num) st x0 signs : walk_at N st x0 signs 0 = x0.
+Proof. reflexivity. Qed.
+Lemma walk_at_S (N : Num) st x0 signs k s :
+  nth_error signs k = Some s ->
+  walk_at N st x0 signs (S k) = fadd (walk_at N st x0 signs k) (fdiv (fofZ s) st).
+Proof.
+  unfold walk_at. revert x0 k. induction signs as [|s0 signs IH]; intros x0 [|k] H; simpl in *; try discriminate.
+  - now injection H as ->.
+  - now apply IH.
+Qed.
+
+Lemma chunks_ok_all {A : Type} eqb (dflt : A) col d n : forall classes idxs,
+  chunks_ok eqb dflt col d n classes idxs = true ->
+  Forall (fun i => exists c, In c classes /\ row_in_group eqb dflt col d c i = true) idxs.
+Proof.
+  induction classes as [|c cs IH]; intros idxs H; simpl in H.
+  - destruct idxs; [constructor|discriminate].
+  - apply andb_true_iff in H as [H H4]. apply andb_true_iff in H as [H H3].
+    rewrite <- (firstn_skipn n idxs). apply Forall_app. split.
+    + apply Forall_forall. intros i Hi. rewrite forallb_forall in H3. exists c. split; [now left|auto].
+    + apply IH in H4. eapply Forall_impl; [|exact H4]. intros i [c' [H1 H2]]. exists c'. split; [now right|auto].
+Qed.
+
+Lemma feature_cover_rows {A : Type} eqb ltb (dflt : A) (col : nat) size idxs (d : list (list A)) k i :
+  cover_oracle_ok eqb ltb dflt (Z.of_nat col) size idxs d = true ->
+  nth_error idxs k = Some i ->
+  exists r, 0 <= i /\ nth_error d (Z.to_nat i) = Some r /\
+            nth_error (feature_cover (Z.of_nat col) idxs d) k = Some (remove_col (Z.of_nat col) r) /\
+            exists c, In c (np_unique eqb ltb (column dflt (Z.of_nat col) d)) /\
+                      eqb (nthZ (Z.of_nat col) r dflt) c = true.
+Proof.
+  unfold cover_oracle_ok. intros H Hk. apply andb_true_iff in H as [_ H].
+  apply chunks_ok_all in H. rewrite Forall_forall in H.
+  destruct (H i (nth_error_In _ _ Hk)) as [c [Hc Hr]].
+  unfold row_in_group, len in Hr. apply andb_true_iff in Hr as [Hr Hl].
+  destruct (nth_error d (Z.to_nat i)) as [r|] eqn:E; [|apply nth_error_None in E; lia].
+  exists r. repeat split; [lia| |].
+  - rewrite nth_error_feature_cover, Hk. simpl. do 2 f_equal. apply nthZ_some; [lia|auto].
+  - exists c. split; auto. rewrite (nthZ_some i d r) in Hl by (auto; lia). exact Hl.
+Qed.
